@@ -679,9 +679,30 @@ def nospace_period_rule(ctx, chk, rule):
         if isinstance(t, ast.Call) and ast.unparse(t.func) == "any" and len(t.args) == 1 and isinstance(t.args[0], (ast.GeneratorExp, ast.ListComp)):
             return _membership(t.args[0].elt)
         return False
-    ok = len(hit) == 1 and len(tests) == 1 and isinstance(hit[0].value, ast.Name) and hit[0].value.id == tgt and _membership(tests[0].test)
-    chk.ob(rule, "a directive found in the format returns the name of its table row", ok, "", key={"function": f.key, "construct": "hit returns row"},
-           file=f.file, function=f.qual, line=outer.lineno)
-    rest = [n for n in iter_own_nodes(f.node) if isinstance(n, ast.Return) and n not in hit]
-    chk.ob(rule, "a format without day and month directives has period 'year'", len(rest) == 1 and isinstance(rest[0].value, ast.Constant) and rest[0].value.value == "year",
-           "", key={"function": f.key, "construct": "fallback year"}, file=f.file, function=f.qual, line=f.node.lineno)
+    # decided by evaluating the function: a format made of one listed directive answers the row that lists it, anything else 'year'
+    from ..core.minieval import Evaluator, Unknown
+    clsp = f.params()[0]
+
+    def oracle(e, env):
+        if isinstance(e, ast.Attribute) and e.attr == "period" and isinstance(e.value, ast.Name) and e.value.id in (clsp, "self", "cls"):
+            return dict(table)
+        raise Unknown(ast.unparse(e)[:40])
+    wrong_hit, wrong_rest = [], []
+    try:
+        for row, dirs in sorted(table.items()):
+            for d_ in dirs:
+                first = next(k_ for k_ in sorted(table) if d_ in table[k_])
+                got = Evaluator(oracle).call(f.node, {clsp: object(), fmtp: "x" + d_ + "x"})
+                if got != first:
+                    wrong_hit.append((d_, got))
+        for probe in ("", "%Y", "%y %Y"):
+            got = Evaluator(oracle).call(f.node, {clsp: object(), fmtp: probe})
+            if got != "year":
+                wrong_rest.append((probe, got))
+    except Unknown as e_:
+        chk.error(rule, "_no_spaces_parser._get_period: the answer is computed by something this rule cannot evaluate (%s)" % e_)
+        return
+    chk.ob(rule, "a directive found in the format returns the name of its table row", not wrong_hit, "(directive, answer): %s" % wrong_hit[:3],
+           key={"function": f.key, "construct": "hit returns row"}, file=f.file, function=f.qual, line=outer.lineno)
+    chk.ob(rule, "a format without day and month directives has period 'year'", not wrong_rest, "(format, answer): %s" % wrong_rest[:3],
+           key={"function": f.key, "construct": "fallback year"}, file=f.file, function=f.qual, line=f.node.lineno)
